@@ -156,16 +156,46 @@ fn observe_poling(i: usize, tag: &str, s: &Setup) {
   let r_try = guarded(std::panic::AssertUnwindSafe(|| {
     PeriodicPoling::try_new_optimum(signal, pump, cs, Apodization::Off).map(|pp| met(pp.signed_period())).map_err(|e| e.0)
   }));
-  let r_spdc = guarded(std::panic::AssertUnwindSafe(|| {
-    let mut spdc = SPDC::new(
-      cs.clone(), signal.clone(), idler0.clone(), pump.clone(), 5e-9 * M, 1e-3 * W, 1e-2,
-      PeriodicPoling::On { period: 1e-5 * M, sign: Sign::POSITIVE, apodization: Apodization::Off }, 0. * M, 0. * M, 1e-12 * M / V,
-    );
-    match spdc.assign_optimum_periodic_poling() {
-      Ok(_) => Ok(met(spdc.pp.signed_period())),
-      Err(e) => Err(e.0),
-    }
-  }));
+  // SPDC::assign_optimum_periodic_poling / SPDC::optimum_periodic_poling / PeriodicPoling::try_as_optimum from an UNPOLED base,
+  // from a poled base of either sign (the result must not depend on the base, only the apodization is kept)
+  let bases: [(&str, PeriodicPoling); 3] = [
+    ("off", PeriodicPoling::Off),
+    ("on_pos", PeriodicPoling::On { period: 1e-5 * M, sign: Sign::POSITIVE, apodization: Apodization::Off }),
+    ("on_neg", PeriodicPoling::On { period: 3e-5 * M, sign: Sign::NEGATIVE, apodization: Apodization::Gaussian { fwhm: 1e-3 * M } }),
+  ];
+  let mut routes = serde_json::Map::new();
+  for (name, base) in bases.iter() {
+    let r_assign = guarded(std::panic::AssertUnwindSafe(|| {
+      let mut spdc = SPDC::new(
+        cs.clone(), signal.clone(), idler0.clone(), pump.clone(), 5e-9 * M, 1e-3 * W, 1e-2, base.clone(), 0. * M, 0. * M, 1e-12 * M / V,
+      );
+      match spdc.assign_optimum_periodic_poling() {
+        Ok(_) => Ok(met(spdc.pp.signed_period())),
+        Err(e) => Err(e.0),
+      }
+    }));
+    let r_opt = guarded(std::panic::AssertUnwindSafe(|| {
+      let spdc = SPDC::new(
+        cs.clone(), signal.clone(), idler0.clone(), pump.clone(), 5e-9 * M, 1e-3 * W, 1e-2, base.clone(), 0. * M, 0. * M, 1e-12 * M / V,
+      );
+      spdc.optimum_periodic_poling().map(|pp| met(pp.signed_period())).map_err(|e| e.0)
+    }));
+    let r_tao = guarded(std::panic::AssertUnwindSafe(|| {
+      base.clone().try_as_optimum(signal, pump, cs).map(|pp| (met(pp.signed_period()), pp.apodization() == base.apodization()))
+        .map_err(|e| e.0)
+    }));
+    let (tao, keeps) = match &r_tao {
+      Ok(Ok((p, k))) => (Ok(Ok(*p)), Some(*k)),
+      Ok(Err(e)) => (Ok(Err(e.clone())), None),
+      Err(m) => (Err(m.clone()), None),
+    };
+    routes.insert(format!("assign_optimum_periodic_poling[{}]", name), result_json(&r_assign));
+    routes.insert(format!("optimum_periodic_poling[{}]", name), result_json(&r_opt));
+    routes.insert(format!("try_as_optimum[{}]", name), result_json(&tao));
+    routes.insert(format!("try_as_optimum[{}].keeps_apodization", name), json!(keeps));
+  }
+  let r_spdc = Ok::<Result<f64, String>, String>(Ok(0.0));
+  let _ = &r_spdc;
   let sign_rule = guarded(std::panic::AssertUnwindSafe(|| PeriodicPoling::compute_sign(signal, pump, cs) == Sign::POSITIVE));
   // replica of the internal minimisation, from public API, with its evaluation table
   let length = met(cs.length);
@@ -189,6 +219,17 @@ fn observe_poling(i: usize, tag: &str, s: &Setup) {
   } else {
     (Ok(f64::INFINITY), vec![])
   };
+  // signed mismatch at the largest admissible period, sign(dkz0) * dkz(On {L, sign}): with dkz increasing along the period this
+  // is negative exactly when the true root (optimum idler recomputed per period) lies beyond the crystal length
+  let g_at_l = if z0v != 0.0 {
+    let pp = PeriodicPoling::On { period: length * M, sign, apodization: Apodization::Off };
+    match guarded(std::panic::AssertUnwindSafe(|| dkz(signal, pump, cs, &pp))) {
+      Ok(Ok((z, _))) => fx(if z0v < 0.0 { -z } else { z }),
+      _ => Value::Null,
+    }
+  } else {
+    Value::Null
+  };
   // residual at the returned period, through the public types (PeriodicPoling::new + optimum idler + delta_k)
   let residual = match &r_main {
     Ok(Ok(p)) if p.is_finite() => {
@@ -208,12 +249,12 @@ fn observe_poling(i: usize, tag: &str, s: &Setup) {
     "indices": [fx(*signal.refractive_index(signal.frequency(), cs)), fx(*pump.refractive_index(pump.frequency(), cs)),
                 fx(*idler0.refractive_index(idler0.frequency(), cs))],
     "optimum_poling_period": result_json(&r_main), "try_new_optimum": result_json(&r_try),
-    "assign_optimum_periodic_poling": result_json(&r_spdc),
+    "routes": Value::Object(routes),
     "compute_sign_positive": match sign_rule { Ok(b) => json!(b), Err(m) => json!(m) },
     "replica": {"g0": fx(guess), "g1": fx(guess + 1e-6), "max_iter": 1000, "min": fx(f64::MIN_POSITIVE), "max": fx(length), "tol": fx(1e-12),
                 "result": match &r_rep { Ok(x) => json!({"ok": true, "x": fx(*x)}), Err(m) => json!({"ok": false, "panic": m}) },
                 "table": table_json(&table)},
-    "residual": residual, "zero_index_during_search": zero_index.get(),
+    "residual": residual, "zero_index_during_search": zero_index.get(), "g_at_length": g_at_l,
   }));
 }
 
@@ -344,6 +385,78 @@ fn run_edge(rng: &mut Rng, n: usize) {
       s2.input["edge_root_minus_length"] = fx(*d);
       observe_poling(done * 10 + j, "edge", &s2);
     }
+    done += 1;
+  }
+}
+
+/// nearly phase-matched setups: the crystal angle is tuned by bisection until the unpoled mismatch is +-target, target log-uniform in
+/// [1e-3, 1e3] rad/m (exact periods of 6 mm .. 6 km: mostly beyond the crystal length, an error is due; an exactly vanishing
+/// mismatch is the only case for the infinite period)
+fn run_near(rng: &mut Rng, n: usize) {
+  let mut done = 0;
+  let mut i = 0;
+  while done < n && i < 60 * n {
+    i += 1;
+    let mut s = gen_setup(rng, i, 0.0, 0.05, false);
+    s.pp = PeriodicPoling::Off;
+    if rng.below(3) == 0 {
+      s.signal.set_angles(0. * RAD, 0. * RAD);
+      s.input["signal_theta"] = fx(0.0);
+      s.input["signal_phi"] = fx(0.0);
+      s.input["history"] = json!("none");
+    }
+    let target = rng.log_range(1e-3, 1e3) * if rng.coin() { 1.0 } else { -1.0 };
+    let f = |th: f64, s: &Setup| -> Option<f64> {
+      let mut cs = s.cs.clone();
+      cs.theta = th * RAD;
+      match guarded(std::panic::AssertUnwindSafe(|| dkz(&s.signal, &s.pump, &cs, &PeriodicPoling::Off))) {
+        Ok(Ok((z, _))) if z.is_finite() => Some(z),
+        _ => None,
+      }
+    };
+    let mut found = None;
+    let mut prev: Option<(f64, f64)> = None;
+    for k in 0..=90 {
+      let th = (k as f64).to_radians();
+      if let Some(z) = f(th, &s) {
+        if let Some((pth, pz)) = prev {
+          if (pz - target) * (z - target) < 0.0 {
+            found = Some((pth, th, pz - target));
+            break;
+          }
+        }
+        prev = Some((th, z));
+      } else {
+        prev = None;
+      }
+    }
+    let (mut lo, mut hi, flo) = match found {
+      Some(x) => x,
+      None => continue,
+    };
+    for _ in 0..80 {
+      let mid = 0.5 * (lo + hi);
+      match f(mid, &s) {
+        Some(z) => {
+          if (z - target) * flo > 0.0 {
+            lo = mid
+          } else {
+            hi = mid
+          }
+        }
+        None => break,
+      }
+    }
+    let z0 = match f(lo, &s) {
+      Some(z) => z,
+      None => continue,
+    };
+    if !(z0.abs() > 1e-4 && z0.abs() < 1e4) {
+      continue;
+    }
+    s.cs.theta = lo * RAD;
+    s.input["crystal_theta"] = fx(lo);
+    observe_poling(done, "near", &s);
     done += 1;
   }
 }
@@ -528,6 +641,7 @@ pub fn run(args: &[String]) {
     "nm" => run_nm(&mut rng, n),
     "poling" => run_poling(&mut rng, n),
     "edge" => run_edge(&mut rng, n),
+    "near" => run_near(&mut rng, n),
     "theta" => run_theta(&mut rng, n),
     "replay" => {
       // args[1]: file {"mode": "poling"|"theta", "input": .., "pp": ..}
